@@ -98,4 +98,32 @@ PROPS = {
                 "late registrations), both drivers; distinct by rendered term",
         "trusted": [],
     },
+    "C13": {
+        "harness": "c13",
+        "imports": ["Base", "Nonce", "Store", "Check12", "Durable", "Check13"],
+        "case_type": "c13_case",
+        "check": "c13_check",
+        "mismatch_is_violation": True,
+        "theories": ["theories/Base.v", "theories/Nonce.v", "theories/Store.v", "theories/StoreProofs.v",
+                     "theories/Durable.v", "theories/DurableProofs.v", "gen/Facts.v"],
+        "check_theories": ["theories/Check12.v", "theories/Check13.v"],
+        "level_text": "Coq theorems over a key-space-write model of the persistent driver: the writes each method issues, "
+                      "applied in one transaction, are exactly the contract step; with one transaction per method "
+                      "(a fact regenerated from badger.go on every run and checked by computation) a crash at any "
+                      "point leaves the state before or after the operation, the invariant and the ledger total survive "
+                      "(a trial balance is never both migrated and kept), acknowledged operations are read back after "
+                      "any number of restarts/kills (induction over histories), migrations from formats 0 and 1 reach "
+                      "format 2 without touching nodes, peers, links or balances, reopening a current database is the "
+                      "identity, newer formats are refused. Tied to the code by reopen histories, SIGKILL of a child "
+                      "process at random operations, synthetic old-format databases opened with the real Open, and "
+                      "concurrent readers during multi-key commits.",
+        "level_note": "Trusted: badger's atomic commit, recovery and snapshot reads (the model starts above them); the "
+                      "AST-based transaction-shape extractor; SIGKILL of the process (not power loss) as the crash.",
+        "technique": "Coq proof (refinement of write lists, induction over crash histories) + regenerated transaction-shape "
+                     "facts + vm_compute correspondence with kill/reopen/migration runs of the real driver",
+        "rule": "reopen histories (10-34 ops, reopen after a quarter of them), kill runs (child process killed as an "
+                "operation starts or after its ack, random sub-ms delay), databases downgraded to format absent/0/1/2/3 "
+                "then opened, reader storms during 300 trial-to-wallet migrations; distinct by rendered term",
+        "trusted": [],
+    },
 }
